@@ -10,7 +10,9 @@ import time
 
 VERIF = os.path.dirname(os.path.dirname(os.path.abspath(__file__)))
 REPO = os.environ.get("VERIF_REPO", "/repo")
-CACHE = os.path.join(VERIF, ".cache")
+_BASECACHE = os.path.join(VERIF, ".cache")
+# one cache per tree under test, so that checks against a scratch worktree (VERIF_REPO, bin/mutant-eval) can run side by side
+CACHE = _BASECACHE if REPO == "/repo" else os.path.join(_BASECACHE, "alt-" + hashlib.sha256(REPO.encode()).hexdigest()[:10])
 LEAN = os.path.join(VERIF, "lean")
 GOENV = dict(os.environ, GOFLAGS="-mod=mod", GOPROXY="off", GOTOOLCHAIN=os.environ.get("GOTOOLCHAIN", "auto"))
 GOENV.pop("GOSUMDB", None)
@@ -54,7 +56,8 @@ class Lock:
 
     def __init__(self, name):
         os.makedirs(CACHE, exist_ok=True)
-        self.path = os.path.join(CACHE, name + ".lock")
+        # the Lean project is shared by every tree under test: its lock is too
+        self.path = os.path.join(_BASECACHE if name == "lake" else CACHE, name + ".lock")
 
     def __enter__(self):
         import fcntl
